@@ -141,6 +141,17 @@ Theorem C05_third_partial_derivative_of_program : forall p x y z, okR (x :: y ::
     locally x (fun s => is_derive (g3 s) y (gt s)) /\ is_derive (fun s => g3 s y) x fxz /\ fyz = gt x /\ is_derive gt x fxyz.
 Proof. exact third_partial_derivative_of_program. Qed.
 
+(* third_partial_derivative_vec: any number of variables and any index triple (repeated indices included); shift3 moves x by (s - xi) e_i + (t - xj) e_j +
+   (u - xk) e_k, and the eight returned values are the parts of a hyper-hyper-dual number representing that family (C03_RepT_meaning spells this out:
+   the last one is d/ds d/dt d/du at (xi, xj, xk), i.e. the third partial derivative d/dx_i d/dx_j d/dx_k when xi, xj, xk are the coordinates of x) *)
+Theorem C05_shift3_meaning : forall x i j k xi xj xk s t u,
+  shift3 x i j k xi xj xk s t u = mapi (fun m xm => xm + delta m i * (s - xi) + delta m j * (t - xj) + delta m k * (u - xk)) x.
+Proof. exact (fun x i j k xi xj xk s t u => eq_refl). Qed.
+Theorem C05_third_partial_derivative_vec_of_program : forall p (x : list R) i j k xi xj xk, okR x p ->
+  exists h : HyperHyperDual R, third_partial_derivative_vec (fun v => eval v p) x i j k = hhd_out h /\
+    RepT xi xj xk (fun s t u => eval (T:=R) (shift3 x i j k xi xj xk s t u) p) h.
+Proof. exact third_partial_derivative_vec_of_program. Qed.
+
 (* non-vacuity: a three-element input has a third element *)
 Example C05_seed_example : exists s, nth_error (seed_gradient [1; 2; 3]) 2 = Some s /\ part_DualVec s (2%nat :: nil) = 1 /\ part_DualVec s (0%nat :: nil) = 0.
 Proof. eexists; split; [reflexivity|]. split; rcbv; reflexivity. Qed.
@@ -167,5 +178,7 @@ Definition C05_bundle := (C05_seed_gradient_spec,
   C05_shift2_meaning,
   C05_hessian_of_program,
   C05_partial_hessian_of_program,
-  C05_third_partial_derivative_of_program).
+  C05_third_partial_derivative_of_program,
+  C05_shift3_meaning,
+  C05_third_partial_derivative_vec_of_program).
 Print Assumptions C05_bundle.
